@@ -219,4 +219,18 @@ theorem optimal_suffix_no_ins_del (s t : List α) (al : Alignment α) (hw : Well
     obtain ⟨p, hp, rfl⟩ := List.mem_map.mp hm
     exact hnc p hp
 
+/-- A sequence is at distance 0 from itself, for every cost table. -/
+theorem dist_self (c : Costs) (s : List α) : dist c s s = 0 := by
+  obtain ⟨hw, hs, ht, hc⟩ := idAl_props c s
+  have := (dist_isMin c s s).2 (idAl s) hw hs ht
+  omega
+
+/-- With unit costs, distance 0 means equal sequences. -/
+theorem dist_unit_eq_zero_iff (s t : List α) : dist unit s t = 0 ↔ s = t := by
+  constructor
+  · intro h
+    obtain ⟨al, hw, hs, ht, hc⟩ := (dist_isMin unit s t).1
+    rw [← hs, ← ht]; exact zero_cost_eq al hw (by omega)
+  · rintro rfl; exact dist_self unit s
+
 end Lev
